@@ -164,9 +164,19 @@ def make_cond(p):
 def make_feature(p):
     from gaussian_toolbox import approximate_conditional as ac
 
+    from . import oracle
+
+    Sig = N(p["Sigma"])
+    ctor = p.get("ctor", "Sigma")
+    if ctor == "Sigma":
+        kw = {"Sigma": J(Sig)}
+    elif ctor == "Lambda":
+        kw = {"Lambda": J(oracle.inv_spd(Sig))}
+    else:
+        kw = {"Sigma": J(Sig), "Lambda": J(oracle.inv_spd(Sig)), "ln_det_Sigma": J(oracle.slogdet_spd(Sig)[0])}
     if p["kind"] == "lrbf":
-        return ac.LRBFGaussianConditional(M=J(p["M"]), b=J(p["b"]), mu=J(p["mu"]), length_scale=J(p["length_scale"]), Sigma=J(p["Sigma"]))
-    return ac.LSEMGaussianConditional(M=J(p["M"]), b=J(p["b"]), W=J(p["W"]), Sigma=J(p["Sigma"]))
+        return ac.LRBFGaussianConditional(M=J(p["M"]), b=J(p["b"]), mu=J(p["mu"]), length_scale=J(p["length_scale"]), **kw)
+    return ac.LSEMGaussianConditional(M=J(p["M"]), b=J(p["b"]), W=J(p["W"]), **kw)
 
 
 def feature_np(p):
@@ -205,3 +215,30 @@ def het_link(kind, h):
     if kind == "heaviside":
         return (h >= 0).astype(float)
     return np.maximum(h, 0.0)
+
+
+
+# ----------------------------------------------------------------------------- densities that have a past
+def density_with_past(fails, kind, params, upd):
+    """Build a density; if `upd` is given ({"idx": [...], "p": params of len(idx) components}) the density is first
+    queried (sample, marginal, integral), then updated in place.  Returns (object, mu, Sigma) with the CURRENT numpy
+    parameters, or (None, None, None) if the library raised (failure appended)."""
+    from .compare import lib
+
+    mu, Sig = N(params["mu"]).copy(), N(params["Sigma"]).copy()
+    ok, p = lib(fails, "construct_pdf", make_measure, kind, params)
+    if not ok:
+        return None, None, None
+    if upd:
+        D = mu.shape[1]
+        lib(fails, "past.sample", lambda: p.sample(jax.random.PRNGKey(5), 2))
+        lib(fails, "past.get_marginal", lambda: p.get_marginal(jnp.array([D - 1])))
+        lib(fails, "past.integrate", lambda: p.integrate("x"))
+        ok, d = lib(fails, "past.construct_update", make_measure, kind, upd["p"])
+        if ok:
+            ok, _ = lib(fails, "past.update", lambda: p.update(jnp.array(upd["idx"]), d))
+        if not ok:
+            return None, None, None
+        mu[np.array(upd["idx"])] = N(upd["p"]["mu"])
+        Sig[np.array(upd["idx"])] = N(upd["p"]["Sigma"])
+    return p, mu, Sig
